@@ -67,6 +67,7 @@ def run(R):
     R.rule("C16.minmax", "MIN / MAX decide through Value's own total order (the order WHERE, group ordering and PERCENTILE use), with no "
                          "conversion of the operands to f64")
     R.rule("C16.numcmp", "ordered comparisons of values in WHERE convert an INT operand to REAL before comparing (not ordered by variant)")
+    digest_rule(R, "C16.digest")
     reach = P.reachable(rules_sites.roots(R, "EXEC") + rules_sites.roots(R, "PARSE"))
     seed = set()
     consumers = []
@@ -265,6 +266,32 @@ class RemapRules:
         return self._R.floor(self._m(rid), n)
 
 
+def digest_rule(R, rid):
+    """values that are deduplicated / grouped / joined are kept as values: nothing outside the Hash impls reduces a value (tuple) to a
+    hash digest - two different tuples with one digest would be taken for equal"""
+    P = R.prog
+    R.rule(rid, "no function of the engine other than the Hash impls themselves feeds a value, a value tuple, a group key or a row into a "
+                "hasher it owns: containers that deduplicate, group or join hold the values, never their digests")
+    VAL = re.compile(r"sqlgrep::model::(Value|Float)\b|aggregate_execution::GroupKey\b|data_model::Row\b")
+    n = 0
+    for k in sorted(P.fns):
+        f = P.fns[k]
+        if f.target != "lib" or f.derived or re.search(r" as core::hash::Hash>::hash$", f.spath):
+            continue
+        for c in f.calls:
+            sn = short(c.name)
+            if not re.search(r" as core::hash::Hash>::hash(_slice)?$|^core::hash::Hash::hash(_slice)?$", sn):
+                continue
+            n += 1
+            ts = " ".join(c.func.get("res_targs") or c.targs or [])
+            self_ty = sn + " " + ts + " " + (c.args[0].get("ty") or "" if c.args else "")
+            if VAL.search(self_ty):
+                R.violation(rid, "%s|digest" % f.spath, "%s hashes %s itself (outside a Hash impl): what is stored or compared afterwards is a "
+                            "digest, and two different values with one digest are treated as equal (a DISTINCT row, a group or a join partner "
+                            "is lost)" % (f.path, (c.args[0].get("ty") or "a value") if c.args else "a value"), [c.loc()])
+    R.ok(rid, "engine", "%d explicit hasher uses outside Hash impls, none over values" % n, "src/execution/mod.rs", nontrivial=False)
+
+
 def float_key_agreement(R, rid):
     """Hash / Eq / Ord of the float-bearing key type(s) agree (one canonical key): decided under `rid` for the property that depends on it"""
     P = R.prog
@@ -336,6 +363,23 @@ def _check_float_type(R, P, a, ims, loc):
         else:
             R.violation("C16.float", "%s|%s|not-delegating" % (a, nm),
                         "%s::%s does not delegate to cmp (or uses IEEE operators): equality/order may disagree with Ord" % (a, nm), [f.loc()])
+    # ... on every path: partial_cmp never answers None (unordered) and never answers something cmp did not say
+    pcv = PR.view(P, pc_f, hold=re.escape(cmp_self) + "$")
+    cmpc = [c for c in pcv.calls if short(c.name) == cmp_self]
+    for _, st in pcv.stmts():
+        if st["k"] != "assign" or st["rv"]["k"] != "aggr" or st["rv"].get("adt") != "core::option::Option":
+            continue
+        if st["rv"].get("variant") == "None":
+            R.violation("C16.float", "%s|partial_cmp|unordered" % a,
+                        "%s::partial_cmp answers None for some pairs (e.g. NaN against a number) while cmp orders them: `<`, `>` and MIN / MAX, "
+                        "which go through partial_cmp, then disagree with the total order that sorting, grouping and DISTINCT use" % a,
+                        ["%s:%d" % (pcv.file, st["line"])])
+        elif st["rv"].get("variant") == "Some" and st["rv"]["ops"] and "Ordering" in (st["rv"]["ops"][0].get("ty") or ""):
+            os_ = F.origins(pcv, st["rv"]["ops"][0], depth=6, through_calls=False) if st["rv"]["ops"][0].get("k") != "const" else []
+            if not any(o.kind == "call" and o.call in cmpc for o in os_):
+                R.violation("C16.float", "%s|partial_cmp|own-answer" % a,
+                            "%s::partial_cmp answers with an ordering that does not come from cmp on some path" % a,
+                            ["%s:%d" % (pcv.file, st["line"])])
     # hash feeds the same key as cmp compares
     kc = local_keyfns(cmp_f)
     # helpers of hash() other than the comparison key function are looked through (e.g. `canonical_bits()` = `canonical().to_bits()`)
